@@ -62,6 +62,8 @@ def update_monitor(run: Any) -> list[Any]:
     for fp, what, detail in structure.worker_copies(run.graph, sc.name):
         out.append((fp.replace("C09", "C15"), "update graph: " + what, detail))
     out += [(fp.replace("C03", "C15"), what, d) for fp, what, d in monitors.c03(run) if "over budget" in fp]
+    # "removes from every worker": each worker's removals reach that worker
+    out += monitors.foreign_connections(run, "C15")
     starts = [e for e in run.trace if e["kind"] == "start"]
     for vm in selected:
         frm = sc.vms_params.get(f"from_state_{vm}", sc.vms_params.get("from_state", "install"))
@@ -173,6 +175,7 @@ def plans(tier: str) -> list[dict[str, Any]]:
         P("update default of vm1 vm2, 3 workers", T("u-default-3w", {}, VM12, nets="net1 net2 net3"), m, K=1, statuses=["PASS"]),
         P("update of the permanent vm3, 2 workers", T("u-vm3", {}, {"vm3": "only Ubuntu\n"}, nets="net1 net2"), m, K=1, statuses=["PASS"]),
         P("update customize..customize of both variants of vm1", T("u-cc-variants", {"from_state": "customize", "to_state": "customize"}, {"vm1": ""}), m, K=1, statuses=["PASS"], pool_fixed={"install": ["own", "shared"]}),
+        P("update default of vm1, two remote workers behind one gateway", T("u-default-cluster", {}, VM1, nets="cluster1.net6 cluster1.net7"), m, K=1, statuses=["PASS"]),
         P("update with a nonexistent target state", T("u-bad-to", {"to_state": "nonexistent"}, VM1, expect_error=True), m, K=1, statuses=["PASS"]),
     ]
     if tier == "thorough":
